@@ -90,7 +90,12 @@ func discoverCAS(p *core.Program) []casSite {
 		for _, b := range f.Blocks {
 			for _, in := range b.Instrs {
 				cmp, ok := in.(*ssa.BinOp)
-				if !ok || (cmp.Op != token.EQL && cmp.Op != token.NEQ) {
+				if !ok {
+					continue
+				}
+				switch cmp.Op {
+				case token.EQL, token.NEQ, token.LSS, token.GTR, token.LEQ, token.GEQ:
+				default:
 					continue
 				}
 				if !isUint(cmp.X.Type()) || !isUint(cmp.Y.Type()) {
@@ -168,6 +173,7 @@ func runC10(c *Ctx) {
 	p, r := c.P, c.R
 	r.Clauses = []string{
 		"C10.1 every compare-and-set function (discovered by data flow: a parameter-derived index compared with a stored ModifyIndex/index-table value) returns, on the mismatch edge, a tuple distinguishable from the applied one",
+		"C10.8 the caller's expected index is compared with the stored one for equality, not by an ordering",
 		"C10.7 the comparison is not optional: with its match edges removed no write is reachable, except below row-absent / expected-zero edges (C10.6) and the off-side of a boolean mode flag",
 		"C10.2 every exported Store wrapper returning a bool reports true only on paths that passed Commit with a nil error and false only on paths that did not commit",
 		"C10.3 the boolean of every CAS function/wrapper is consumed at every call site",
@@ -181,7 +187,21 @@ func runC10(c *Ctx) {
 	}
 
 	// ---- C10.1
-	sites := discoverCAS(p)
+	allSites := discoverCAS(p)
+	var sites []casSite
+	for _, s := range allSites {
+		if s.cmp.Op == token.EQL || s.cmp.Op == token.NEQ {
+			sites = append(sites, s)
+			r.Hold("C10.8", core.FuncName(s.fn)+"/"+s.stored, p.Pos(s.cmp.Pos()), "the expected index is tested for equality")
+			continue
+		}
+		// an ordering test between a caller-supplied expected index and the stored one
+		if _, isSetter := isIndexSetter(p, s.fn); isSetter {
+			continue // the max-merge index setter compares the raft index with the stored index by design (C06.W0)
+		}
+		r.Violate("C10.8", core.FuncName(s.fn)+"/"+s.stored, p.Pos(s.cmp.Pos()), "the caller's expected index is compared with the stored index by '"+s.cmp.Op.String()+"' instead of equality: a conditional write carrying an index the object never had (newer than the stored one) is applied and reported as applied")
+	}
+	r.Floor("C10.8", 19)
 	r.Floor("C10.1", 19)
 	r.Floor("C10.7", 19)
 	casFuncs := map[*ssa.Function]bool{}
